@@ -51,6 +51,8 @@ type World struct {
 	Crashes int // crash points reached so far
 	// ExitDead: a goroutine of a dead incarnation that calls a fake is ended (runtime.Goexit) instead of being parked for ever
 	ExitDead bool
+	// CrashKinds: the event kinds a crash point counts (nil: pos.put and event.ack)
+	CrashKinds map[string]bool
 }
 
 func NewWorld() *World {
@@ -89,13 +91,21 @@ func (w *World) fault(kind string) bool {
 func (w *World) ev(kind, key, val string, ok bool) {
 	w.Clock++
 	w.Log = append(w.Log, Event{Clock: w.Clock, Kind: kind, Key: key, Val: val, OK: ok})
-	if w.crashIn > 0 && ok && (kind == "pos.put" || kind == "event.ack") {
+	if w.crashIn > 0 && ok && w.durable(kind) {
 		w.crashIn--
 		if w.crashIn == 0 {
 			w.Epoch++
 			w.Crashes++
 		}
 	}
+}
+
+// the effects a crash point counts: CrashKinds, or by default a checkpoint write and a downstream acknowledgement of an event
+func (w *World) durable(kind string) bool {
+	if w.CrashKinds != nil {
+		return w.CrashKinds[kind]
+	}
+	return kind == "pos.put" || kind == "event.ack"
 }
 
 // CrashAfter arms a crash point: the incarnation dies right after its n-th further durable effect (n = 0: now).
